@@ -61,21 +61,27 @@ Qed.
 Print Assumptions c11_refund.
 
 (* after the close exactly the last accepted bidder has the lot and has paid the standing
-   payment; every other bidder's net change over the whole auction is 0, in every denom *)
+   payment; every other bidder's net change over the whole auction is 0, in every denom.  The
+   generation-2 surplus close (as repaired by 67f334a) takes the lot out of the generation-1 auction
+   module account, where the start put it: that account is out of exactly the lot and of nothing
+   else, and the collector - which the original code debited a second time - is where it was *)
 Theorem c11_winner_only : forall v bd ld lot b0 now fac d bs l0 ops,
   bd <> ld -> 0 <= b0 -> Forall valid_op ops ->
   let s := run (init v bd ld lot b0 now fac d bs, l0) ops in
   status (fst s) = 2 ->
   exists w amt rest, bidder (fst s) = Some w /\ bids (fst s) = (w, amt) :: rest /\
-    forall acct dn, 0 <= acct ->
+    (forall acct dn, 0 <= acct ->
       snd s acct dn = l0 acct dn
         + (if (acct =? w) && (dn =? lot_denom (fst s)) then Z.max 0 (sell (fst s)) else 0)
-        - (if (acct =? w) && (dn =? bid_denom (fst s)) then buy (fst s) else 0).
+        - (if (acct =? w) && (dn =? bid_denom (fst s)) then buy (fst s) else 0)) /\
+    (var (fst s) = V2S ->
+       (forall dn, snd s AUC1 dn = l0 AUC1 dn - (if dn =? lot_denom (fst s) then sell (fst s) else 0)) /\
+       (forall dn, snd s COLL dn = l0 COLL dn)).
 Proof.
   intros v bd ld lot b0 now fac d bs l0 ops Hd Hb Hv s Hst.
   destruct (run_inv l0 ops _ (inv_init v bd ld lot b0 now fac d bs l0 Hd Hb) Hv) as [_ [HO|HC]]; fold s in HO || fold s in HC.
   - destruct HO as ([H|H] & _); lia.
-  - destruct HC as (_ & w & amt & rest & Hw & Hbs & _ & _ & Hl). exists w, amt, rest. auto.
+  - destruct HC as (_ & w & amt & rest & Hw & Hbs & _ & _ & Hl & Hsrc). exists w, amt, rest. auto.
 Qed.
 Print Assumptions c11_winner_only.
 
@@ -100,16 +106,33 @@ Qed.
 Print Assumptions c11_open_others_whole.
 
 (* non-vacuity: a generation-2 surplus auction with three bidders: barely improving bid accepted,
-   equal bid rejected, close after the end time; bidder 1 wins, bidder 0 and 2 are whole *)
-Definition ex_l0 : ledger := fun a d => if (a =? COLL) then 5000 else if (0 <=? a) && (d =? 0) then 1000000 else 0.
+   equal bid rejected, close after the end time; bidder 1 wins, bidder 0 and 2 are whole; the lot
+   (1000) came out of the generation-1 auction module account (1007 -> 7), the collector keeps its
+   5000 *)
+Definition ex_l0 : ledger := fun a d =>
+  if (a =? COLL) then 5000 else if (a =? AUC1) && (d =? 1) then 1007 else if (0 <=? a) && (d =? 0) then 1000000 else 0.
 Definition ex_ops : list op :=
   [Bid 0 0 200000 10 0 0; Bid 2 0 200000 11 0 0; Bid 1 0 220000 12 0 0; Bid 2 0 219999 13 0 0; Tick 3700 true].
 Example c11_nonvacuous :
   Forall valid_op ex_ops /\
   let s := run (init V2S 0 1 1000 0 0 100000000000000000 3600 300, ex_l0) ex_ops in
-  status (fst s) = 2 /\ bidder (fst s) = Some 1 /\ List.length (bids (fst s)) = 2%nat /\
-  snd s 1 0 = 780000 /\ snd s 1 1 = 1000 /\ snd s 0 0 = 1000000 /\ snd s 2 0 = 1000000 /\ snd s MOD 0 = 0.
+  status (fst s) = 2 /\ var (fst s) = V2S /\ bidder (fst s) = Some 1 /\ List.length (bids (fst s)) = 2%nat /\
+  snd s 1 0 = 780000 /\ snd s 1 1 = 1000 /\ snd s 0 0 = 1000000 /\ snd s 2 0 = 1000000 /\ snd s MOD 0 = 0 /\
+  snd s AUC1 1 = 7 /\ snd s COLL 1 = 5000 /\ snd s MOD 1 = 0.
 Proof. split; [repeat constructor; cbn; lia|]. vm_compute. repeat split. Qed.
+
+(* the lot source not funded (the generation-1 auction module account is one coin short; the
+   collector is rich): the close fails at its first statement, the auction stays open with the
+   standing bid in custody, nobody is paid, and the hook retries at every block *)
+Definition ex_l0_short : ledger := fun a d =>
+  if (a =? COLL) then 5000 else if (a =? AUC1) && (d =? 1) then 999 else if (0 <=? a) && (d =? 0) then 1000000 else 0.
+Example c11_lot_source_short :
+  let s0 := run (init V2S 0 1 1000 0 0 100000000000000000 3600 300, ex_l0_short) (firstn 4 ex_ops) in
+  step s0 (Tick 3700 true) = Err 14 /\
+  let s := run (init V2S 0 1 1000 0 0 100000000000000000 3600 300, ex_l0_short) ex_ops in
+  status (fst s) = 1 /\ bidder (fst s) = Some 1 /\ snd s MOD 0 = 220000 /\ snd s 1 1 = 0 /\ snd s 1 0 = 780000 /\
+  snd s AUC1 1 = 999 /\ snd s COLL 1 = 5000.
+Proof. vm_compute. repeat split. Qed.
 End E.
 
 Module L.
